@@ -2,8 +2,8 @@
 
 Spec:     specs/PathNS.tla (path resolution, the property: FtpCmd), PathFtp.tla (FTP session model: working
           directory, toSegments + FilePath.descendant under the shell root, the accesses each command makes
-          on a small directory-tree model), PathFtpMC (exhaustive TLC over all sessions up to the bound),
-          PathFtpSim (behaviour generator), PathNSTrace (trace validation).
+          on a small directory-tree model), PathFtpMC (exhaustive TLC over all sessions up to the bound; it also prints a
+          transition cover of the model as sessions with predicted outcomes), PathNSTrace (trace validation).
 Binding:  real twisted.protocols.ftp.FTP protocol instances built by a real FTPFactory / Portal / FTPRealm
           (FTPShell for the logged-in user, FTPAnonymousShell for anonymous) over StringTransport, driven
           command by command on a scratch tree (root, prefix-sharing sibling, parent); the data connection
@@ -15,8 +15,8 @@ import os
 
 META = dict(
     id="C54",
-    specs=["PathNS.tla", "PathFtp.tla", "PathFtpMC.tla", "PathFtpSim.tla", "PathNSTrace.tla"],
-    technique="TLA+ FTP-session model over the PathNS namespace spec (toSegments and FilePath.descendant transcribed; TLC exhaustive over all sessions of <=2..3 path-taking commands with every path of <=2 components over the hostile alphabet, both containment variants, both shells) + TLC trace validation of real FTP/FTPShell/FTPAnonymousShell sessions (exhaustive one-command sessions from every working directory, random long sessions, sessions generated by TLC from the model) with file-system accesses observed by sys.addaudithook",
+    specs=["PathNS.tla", "PathFtp.tla", "PathFtpMC.tla", "PathNSTrace.tla"],
+    technique="TLA+ FTP-session model over the PathNS namespace spec (toSegments and FilePath.descendant transcribed; TLC exhaustive over all sessions of <=2..3 path-taking commands with every path of <=2 components over the hostile alphabet, both containment variants, both shells) + TLC trace validation of real FTP/FTPShell/FTPAnonymousShell sessions (exhaustive one-command sessions from every working directory, random long sessions, and the transition cover of the model printed by TLC replayed as sessions) with file-system accesses observed by sys.addaudithook",
     level_text="TLC checks on the session model that whatever a command opens, lists, creates, renames or deletes is inside the shell root for every session up to the bound, and every command of every recorded session of the real FTP server is validated by TLC: each recorded file-system access (and each file whose content was sent on the data connection) must resolve inside the root.",
     level_note="Trusted: TLC, CPython's audit events (open, os.listdir, os.scandir, os.mkdir, os.rename, os.remove, os.rmdir, ...), the lexical split of paths at '/'. Symbolic links are excluded (none in the scratch tree). Accesses by the import system / linecache are not attributed to the server; os.stat (SIZE/MDTM, existence tests) is not observed -- the property lists open/list/create/rename/delete. libc reads of /etc/passwd and /etc/group for LIST owner names do not raise audit events. Sessions longer than the enumerated depth are sampled. The model's predicted replies/accesses are compared with the real ones only as impl_drift, never as a verdict.",
     design_ref="2.10 C54",
@@ -123,8 +123,11 @@ class Session:
                 while dtp.transport.producer is not None and k < 200:
                     dtp.transport.producer.resumeProducing()
                     k += 1
-                if verb == "STOR" and dtp._cons is not None:
-                    dtp.dataReceived(data if data is not None else b"stored-by-client")
+                if verb == "STOR":
+                    try:
+                        dtp.dataReceived(data if data is not None else b"stored-by-client")
+                    except Exception:
+                        pass          # a reactor would log it and drop the data connection, which is what follows
                 dout = dtp.transport.value()
                 dtp.connectionLost(Failure(ConnectionDone()))
                 A.settle(R)
@@ -186,16 +189,22 @@ def spec_view(t):
 WDS = ["/", "/a", "/a/a"]
 
 
+READ_VERBS = ("CWD", "LIST", "NLST", "RETR", "SIZE", "MDTM")
+WRITE_VERBS = ("STOR", "MKD", "RMD", "DELE", "RNFR", "RNTO")
+
+
 def exhaustive_lines(verbs, alpha, lo, hi, wd):
-    """Every (verb, path) with path of lo..hi components over alpha, from working directory wd."""
+    """Every (verb, path) with path of lo..hi components over alpha, issued from working directory wd.
+    (The protocol's working directory is a list of names, so it stays `wd` whatever the write verbs do to the
+    tree; after every CWD the session changes back to `wd`.)"""
     for n in range(lo, hi + 1):
         for syms in itertools.product(alpha, repeat=n):
             p = concrete(syms)
             for v in verbs:
                 if v == "RNFR":
-                    yield ["RNFR " + p, "RNTO " + p + "2"]
+                    yield ["RNFR " + p, "RNTO /got"]
                 elif v == "RNTO":
-                    yield ["RNFR f", "RNTO " + p]
+                    yield ["RNFR /f", "RNTO " + p]
                 elif v == "CWD":
                     yield ["CWD " + p, "CWD " + wd]
                 else:
@@ -264,25 +273,32 @@ def mutate(t, rng):
 
 # --------------------------------------------------------------------------- spec -> code
 
-def sim_lines(beh):
-    """A behaviour of PathFtpSim -> FTP command lines (+ the model's prediction per command)."""
-    lines, pred = [], []
-    for h in beh["hist"]:
-        p = concrete(h["arg"])
-        verb = h["cmd"]
-        lines.append(verb + " " + p)
-        pred.append(h)
-    return lines, pred
+def cover_sessions(out):
+    """Sessions printed by PathFtpMC (EmitCover): deduplicated list of {"anon", "hist": [{cmd, arg, ok, acc}]}."""
+    import json
+    from harness.core import extract_printed
+    seen, res = set(), []
+    for v in extract_printed(out, "BEH"):
+        if v[1] not in seen:
+            seen.add(v[1])
+            res.append(json.loads(v[1]))
+    return res
 
 
-def compare_prediction(t, pred, ns):
-    """Number of commands whose real reply class / accesses differ from the model's (impl drift; not a verdict)."""
+def model_path(p):
+    """A path of the model (root = /P/root, names = alphabet symbols) as the adapter would log the real one."""
+    from harness.adapters import c26_c54_pathns as A
+    al = alphabet()
+    return ["", "{G}"] + list(p[1:3]) + [A.comps(al.get(c, c))[0] for c in p[3:]]
+
+
+def compare_prediction(t, pred):
+    """Commands whose real reply class / accesses differ from the model's (impl drift; never a verdict)."""
     real = [e for e in t["ev"] if not e["line"].startswith("<") and e["line"] != "PASV" and not e["line"].startswith(("USER", "PASS"))]
     drift = []
     for e, h in zip(real, pred):
         ok = 200 <= e["final"] < 400
-        # model paths are under /P/root; real ones under /{G}/P/root
-        acc = [[k, ["", "{G}"] + list(p[1:])] for k, p in h["acc"]]
+        acc = [[k, model_path(p)] for k, p in h["acc"]]
         if ok != h["ok"] or acc != e["acc"]:
             drift.append((e["line"], e["final"], e["acc"], h["ok"], acc))
     return drift
@@ -317,15 +333,16 @@ def run(ctx):
     L = ctx.pick(2, 3)
     nex = 0
     for wd in WDS:
-        for b in batches(exhaustive_lines(PATH_VERBS, ctx.pick(CORE, FULL), 1, L, wd), K):
-            traces.append(run_session(server, False, ["CWD " + wd] + b))
+        for verbs in (READ_VERBS, WRITE_VERBS):
+            for b in batches(exhaustive_lines(verbs, ctx.pick(CORE, FULL), 1, L, wd), K):
+                traces.append(run_session(server, False, ["CWD " + wd] + b))
+                nex += len(b)
+    # one component more for the deepest working directory
+    for verbs in (("CWD", "RETR"), ("STOR", "RNTO")) if ctx.quick else (READ_VERBS, WRITE_VERBS):
+        for b in batches(exhaustive_lines(verbs, CORE[:8], L + 1, L + 1, WDS[2]), K):
+            traces.append(run_session(server, False, ["CWD " + WDS[2]] + b))
             nex += len(b)
-    # deeper paths for the commands that read
-    for wd in WDS[1:]:
-        for b in batches(exhaustive_lines(("CWD", "RETR") + (() if ctx.quick else ("LIST", "STOR", "DELE", "RNTO")), CORE[:8], L + 1, L + 1, wd), K):
-            traces.append(run_session(server, False, ["CWD " + wd] + b))
-            nex += len(b)
-    # anonymous shell: everything of length <= 2
+    # anonymous shell
     for wd in WDS[:2]:
         for b in batches(exhaustive_lines(PATH_VERBS, CORE, 1, ctx.pick(1, 2), wd), K):
             traces.append(run_session(server, True, ["CWD " + wd] + b))
@@ -335,21 +352,28 @@ def run(ctx):
     nrand = ctx.pick(60, 3000)
     for i in range(nrand):
         traces.append(run_session(server, rng.random() < 0.2, random_session(rng, ns, rng.randint(10, 40))))
-    # spec -> code: sessions generated by TLC from the model, with the model's predicted reply class and accesses
-    behs = ctx.simulate("PathFtpSim", "PathFtpSim.cfg", num=ctx.pick(150, 3000), depth=ctx.pick(9, 13))
+    # spec -> code: the model's transition cover (printed by TLC during the exhaustive run) replayed as sessions
+    # on the real server; the model's predicted reply class and accesses are compared with the real ones.
+    behs = cover_sessions(r.out)
+    if not behs:
+        raise MachineryError("PathFtpMC printed no cover sessions")
+    ncover = len(behs)
+    if ctx.quick and len(behs) > 300:
+        behs = [behs[i] for i in sorted(rng.sample(range(len(behs)), 300))]
     ndrift, nsteps, examples = 0, 0, []
     for b in behs:
-        lines, pred = sim_lines(b)
+        lines = [h["cmd"] + " " + concrete(h["arg"]) for h in b["hist"]]
         t = run_session(server, b["anon"], lines)
-        d = compare_prediction(t, pred, ns)
+        d = compare_prediction(t, b["hist"])
         ndrift += len(d)
-        nsteps += len(pred)
+        nsteps += len(b["hist"])
         if d and len(examples) < 5:
             examples.append(dict(lines=lines, first_difference=[str(x) for x in d[0]]))
         traces.append(t)
     ctx.impl_drift = ndrift
-    ctx.extra.update(spec_behaviours_replayed=len(behs), spec_steps_replayed=nsteps, spec_steps_not_reproduced=ndrift,
-                     drift_examples=examples)
+    ctx.extra.update(model_cover_sessions=ncover, spec_behaviours_replayed=len(behs), spec_steps_replayed=nsteps,
+                     spec_steps_not_reproduced=ndrift, drift_examples=examples)
+    ctx.log("model cover: %d sessions printed by TLC, %d replayed, %d/%d steps differ from the model's prediction" % (ncover, len(behs), ndrift, nsteps))
     ncmd = sum(len(t["ev"]) for t in traces)
     ctx.log("recorded %d sessions, %d commands" % (len(traces), ncmd))
     ctx.exhaustive = True
